@@ -209,7 +209,23 @@ def plan_c05(pid, rng, tier, maxn=None):
         ev.append({"at": at + black + 10 * f["pi"], "kind": "crash", "node": vic})
         dur = max(dur, black + 12 * f["pi"])
         left.update(names)                                 # (no random crashes, leaves or updates on top)
-    for k in range(rng.randint(1, 8) if directed not in (0, 1, 2, 3) else rng.randint(0, 2)):
+    elif directed == 4:
+        # a member has announced several metadata changes (its incarnation has grown), crashes and is back at once on
+        # the same address with its incarnation starting over; the others tell it what they remember, it refutes - and
+        # then the application changes the metadata again: that announcement must not be older than the refutation
+        vic = rng.choice(names[1:])
+        ev[-1].update(loss=0.05, jitter=10, cut=0)
+        at = t0 + rng.randrange(0, 1000)
+        for k in range(3):
+            ev.append({"at": at + 1500 * k, "kind": "update", "node": vic, "meta": "m-%s-first%d" % (vic, k + 1), "timeout": 1000})
+        crash = at + 5000
+        ev.append({"at": crash, "kind": "crash", "node": vic})
+        ev.append({"at": crash + 300, "kind": "restart", "node": vic})
+        ev.append({"at": crash + 450, "kind": "join", "node": vic, "to": rng.choice([x for x in names if x != vic])})
+        ev.append({"at": crash + 450 + 4000, "kind": "update", "node": vic, "meta": "m-%s-second-life" % vic, "timeout": 3000})
+        dur = max(dur, crash + 6000 - t0)
+        left.add(vic)
+    for k in range(rng.randint(1, 8) if directed not in (0, 1, 2, 3, 4) else rng.randint(0, 2)):
         at = t0 + rng.randrange(0, dur)
         kind = rng.choice(["partition", "partition", "crash", "crash", "leave", "update"])
         nm = rng.choice(names)
